@@ -26,10 +26,10 @@ theorem no_raw_leak (s : State) (ops : List Op) :
   cases o with
   | send a' p' =>
     simp only [step] at hmem
-    rcases send_cases st a' p' with ⟨h, e⟩ | ⟨_, _, e⟩ | ⟨_, _, c, _, _, e⟩ | ⟨_, _, c, _, _, e⟩ | ⟨_, _, _, e⟩
+    rcases send_cases st a' p' with ⟨h, e⟩ | ⟨_, _, e⟩ | ⟨_, _, c, _, e⟩ | ⟨_, _, _, _, e⟩ | ⟨_, _, _, _, e⟩
     · rw [e] at hmem; simp at hmem; obtain ⟨rfl, rfl⟩ := hmem; exact ⟨rfl, h⟩
     · rw [e] at hmem; simp at hmem
-    · rw [e] at hmem; simp [dataEv] at hmem
+    · rw [e] at hmem; exact absurd hmem (sendOver_noraw st c a' p' a p)
     · rw [e] at hmem; simp at hmem
     · rw [e] at hmem; simp at hmem
   | notify b => simp [step, notify] at hmem
@@ -59,19 +59,14 @@ theorem tunnelled_only_over_ready_exit_circuit (s : State) (ops : List Op) :
   cases o with
   | send a' p' =>
     simp only [step] at hmem
-    rcases send_cases st a' p' with ⟨_, e⟩ | ⟨_, _, e⟩ | ⟨han, hat, c, hc, hr, e⟩ | ⟨_, _, c, _, _, e⟩ | ⟨_, _, _, e⟩
+    rcases send_cases st a' p' with ⟨_, e⟩ | ⟨_, _, e⟩ | ⟨han, hat, c, hc, e⟩ | ⟨_, _, _, _, e⟩ | ⟨_, _, _, _, e⟩
     · rw [e] at hmem; simp at hmem
     · rw [e] at hmem; simp at hmem
     · rw [e] at hmem
-      obtain ⟨hcm, hf⟩ := find_head _ _ _ hc
+      obtain ⟨hcm, hf, hr⟩ := pick_spec _ _ _ hc
       obtain ⟨hty, hgoal, hflag⟩ := sendFind_spec _ _ hf
       obtain ⟨hncl, hlen⟩ := (state_ready_iff c).1 hr
-      have hx : ∃ y, (y = (a', p') ∨ y ∈ st.queue) ∧ Event.data cid tgt d p = dataEv c y := by
-        simp only [List.mem_cons, List.mem_map] at hmem
-        rcases hmem with h | ⟨y, hy, h⟩
-        · exact ⟨(a', p'), Or.inl rfl, h⟩
-        · exact ⟨y, Or.inr hy, h.symm⟩
-      obtain ⟨y, hy, heq⟩ := hx
+      obtain ⟨y, hy, heq⟩ := sendOver_data st c a' p' cid tgt d p hmem
       simp only [dataEv, Event.data.injEq] at heq
       obtain ⟨h1, h2, h3, h4⟩ := heq
       refine ⟨hat, ⟨a', p', rfl, han, ?_⟩, c, hcm, h1.symm, hr, hncl, hlen, hty, hgoal, exitFlags_spec c _ hflag, ?_⟩
@@ -89,7 +84,10 @@ theorem tunnelled_only_over_ready_exit_circuit (s : State) (ops : List Op) :
     every later interleaving of sends, anonymity toggles, attach/detach, other circuits appearing / extending /
     closing, the delayed `circuits.pop(cid)` arriving or not, further removal requests … no `send_data` ever names
     circuit `cid` again: packets are queued (or use another READY circuit) instead.  (`cid < nextId`: the id has been
-    handed out, so no later circuit is registered under it.) -/
+    handed out; in the MODEL ids are never reused.  The code draws random 32-bit ids and only avoids ids currently
+    registered, so after the entry has been popped a new circuit may get the same id: the claim is about the circuit,
+    not the number.  `removeRequest` stands for the point at which the `@task` body of `remove_circuit` has run up to
+    its `await sleep`, one loop iteration after the call.) -/
 theorem no_send_data_after_remove_request (s : State) (cid : Nat) (h : cid < s.comm.nextId) (ops : List Op) :
     ∀ x ∈ trace (step s (.removeRequest cid)).1 ops, ∀ tgt d p, Event.data cid tgt d p ∉ x.2.2 := by
   intro x hx tgt d p hmem
@@ -111,39 +109,99 @@ theorem no_send_data_over_closing_circuit (s : State) (ops : List Op) :
   obtain ⟨_, _, c, hc, hcid, hr, hncl, _⟩ := tunnelled_only_over_ready_exit_circuit s ops x hx cid tgt d p hmem
   exact ⟨c, hc, hcid, hncl, by rw [hr]; simp⟩
 
-/-- **Tunnelled, queued or dropped — nothing else.**  A `send` of an anonymized packet has exactly one of three
-    outcomes, each with its exact effect:
-    * a tunnel community is attached and the first circuit `find_circuits` returns is READY: the packet and then the
-      whole backlog go out as `send_data` over that circuit, the queue is emptied;
-    * a tunnel community is attached but there is no such circuit or it is not READY: the packet is appended to the
-      bounded queue (the oldest entry falls out if full; a circuit is requested if none matched); no `send_data`, no raw;
+/-- **Tunnelled, queued or dropped — nothing else; queued only while no usable circuit exists.**  A `send` of an
+    anonymized packet has exactly one of three outcomes, each with its exact effect:
+    * a tunnel community is attached and SOME registered circuit passes the `find_circuits` filter and is READY: the
+      first such circuit carries the packet and then the backlog as `send_data` (`sendOver`; if no `send_data` raises,
+      everything goes out and the queue is emptied);
+    * a tunnel community is attached and NO registered circuit both passes the filter and is READY: the packet is
+      appended to the bounded queue (the oldest entry falls out if full; a circuit is requested if none matched at
+      all); no `send_data`, no raw;
     * no tunnel community: nothing changes and nothing is emitted (the packet is dropped). -/
 theorem anonymized_send_outcome (s : State) (a : Addr) (p : Bytes) (h : s.anonymized p = true) :
-    (s.attached = true ∧ ∃ c, (s.comm.find s.hops).head? = some c ∧ c.state = .ready ∧
-        send s a p = ({ s with queue := [] }, dataEv c (a, p) :: s.queue.map (dataEv c)))
-    ∨ (s.attached = true ∧ (∀ c, (s.comm.find s.hops).head? = some c → c.state ≠ .ready) ∧
+    (s.attached = true ∧ ∃ c ∈ s.comm.circuits, sendFind s.hops c = true ∧ c.state = .ready ∧
+        send s a p = sendOver s c a p ∧
+        (s.comm.failAfter = none →
+          send s a p = ({ s with queue := [] }, dataEv c (a, p) :: s.queue.map (dataEv c))))
+    ∨ (s.attached = true ∧ (∀ c ∈ s.comm.circuits, sendFind s.hops c = true → c.state ≠ .ready) ∧
         (send s a p).1.queue = (dequeAppend s.cap s.queue (a, p)).1 ∧
         (∀ e ∈ (send s a p).2, (∃ h f m, e = .create h f m) ∨ (∃ x ∈ s.queue ++ [(a, p)], e = .drop true x.1 x.2)))
     ∨ (s.attached = false ∧ send s a p = (s, [.drop false a p])) := by
-  rcases send_cases s a p with ⟨h', _⟩ | ⟨_, hd, e⟩ | ⟨_, hat, c, hc, hr, e⟩ | ⟨_, hat, c, hc, hr, e⟩ | ⟨_, hat, hc, e⟩
+  rcases send_cases s a p with ⟨h', _⟩ | ⟨_, hd, e⟩ | ⟨_, hat, c, hc, e⟩ | ⟨_, hat, hc, _, e⟩ | ⟨_, hat, hc, _, e⟩
   · rw [h] at h'; cases h'
   · exact Or.inr (Or.inr ⟨hd, e⟩)
-  · exact Or.inl ⟨hat, c, hc, hr, e⟩
-  · refine Or.inr (Or.inl ⟨hat, ?_, by rw [e], ?_⟩)
-    · intro c' hc'; rw [hc] at hc'; cases hc'; exact hr
-    · rw [e]; intro ev hev
-      simp only [List.mem_map] at hev
-      obtain ⟨x, hx, rfl⟩ := hev
-      refine Or.inr ⟨x, ?_, rfl⟩
+  · obtain ⟨hcm, hf, hr⟩ := pick_spec _ _ _ hc
+    exact Or.inl ⟨hat, c, hcm, hf, hr, e, fun hnf => by rw [e, sendOver_nofail s c a p hnf]⟩
+  · refine Or.inr (Or.inl ⟨hat, pick_none _ _ hc, by rw [e], ?_⟩)
+    rw [e]; intro ev hev
+    simp only [List.mem_map] at hev
+    obtain ⟨x, hx, rfl⟩ := hev
+    refine Or.inr ⟨x, ?_, rfl⟩
+    rw [← dequeAppend_parts s.cap s.queue (a, p)]; exact List.mem_append_left _ hx
+  · refine Or.inr (Or.inl ⟨hat, pick_none _ _ hc, by rw [e], ?_⟩)
+    rw [e]; intro ev hev
+    simp only [List.mem_cons, List.mem_map] at hev
+    rcases hev with rfl | ⟨x, hx, rfl⟩
+    · exact Or.inl ⟨_, _, _, rfl⟩
+    · refine Or.inr ⟨x, ?_, rfl⟩
       rw [← dequeAppend_parts s.cap s.queue (a, p)]; exact List.mem_append_left _ hx
-  · refine Or.inr (Or.inl ⟨hat, ?_, by rw [e], ?_⟩)
-    · intro c' hc'; rw [hc] at hc'; cases hc'
-    · rw [e]; intro ev hev
-      simp only [List.mem_cons, List.mem_map] at hev
-      rcases hev with rfl | ⟨x, hx, rfl⟩
-      · exact Or.inl ⟨_, _, _, rfl⟩
-      · refine Or.inr ⟨x, ?_, rfl⟩
-        rw [← dequeAppend_parts s.cap s.queue (a, p)]; exact List.mem_append_left _ hx
+
+/- FULL STATEMENT of the clause "held in a bounded queue UNTIL such a circuit exists" (not provable for this code):
+     whenever a registered circuit is READY, of the configured length, with an IPv8 exit, the queue is empty —
+       ∀ ops s, let s' := runState s ops;
+         (∃ c ∈ s'.comm.circuits, sendFind s'.hops c = true ∧ c.state = .ready) → s'.attached = true → s'.queue = []
+   It fails because nothing flushes the queue at the moment a circuit BECOMES ready (`addHop`) or the community is
+   re-attached: the backlog waits for the next anonymized `send` (witness below).  What is proved is the part that
+   concerns every `send`: -/
+
+/-- **Held only while no usable circuit exists (the part that holds).**  If, when an anonymized packet is sent with
+    a tunnel community attached, some registered circuit passes the filter (DATA, configured length, IPv8 exit) and is
+    READY — wherever it sits in the circuit table, whatever closing or extending circuits precede it — then neither
+    that packet nor any backlog is left waiting: every packet of `(a, p) :: queue` is handed to `send_data`, or lost
+    to a raising `send_data`, or (only after such a raise) still queued; without a raise the queue is empty. -/
+theorem held_until_ready_circuit_exists_partial (s : State) (a : Addr) (p : Bytes) (h : s.anonymized p = true)
+    (hat : s.attached = true) (c : Circuit) (hc : c ∈ s.comm.circuits) (hf : sendFind s.hops c = true)
+    (hr : c.state = .ready) :
+    (∃ c', s.comm.pick s.hops = some c' ∧ send s a p = sendOver s c' a p) ∧
+    (s.comm.failAfter = none → (send s a p).1.queue = [] ∧ (send s a p).2.length = s.queue.length + 1) := by
+  rcases send_cases s a p with ⟨h', _⟩ | ⟨_, hd, _⟩ | ⟨_, _, c', hc', e⟩ | ⟨_, _, hn, _, _⟩ | ⟨_, _, hn, _, _⟩
+  · rw [h] at h'; cases h'
+  · rw [hat] at hd; cases hd
+  · refine ⟨⟨c', hc', e⟩, fun hnf => ?_⟩
+    rw [e, sendOver_nofail s c' a p hnf]; simp
+  · exact absurd hr (pick_none _ _ hn c hc hf)
+  · exact absurd hr (pick_none _ _ hn c hc hf)
+
+/-- the witness that the full statement fails: a circuit becomes READY while a packet waits, and nothing happens -/
+theorem held_until_ready_circuit_exists_fails :
+    ∃ (s : State) (ops : List Op),
+      (∃ c ∈ (runState s ops).comm.circuits, sendFind (runState s ops).hops c = true ∧ c.state = .ready) ∧
+      (runState s ops).attached = true ∧ (runState s ops).queue ≠ [] :=
+  ⟨init 2, [.setAnonymity (communityPrefixHead ++ List.replicate 20 0xAA) true, .setTunnelCommunity true 1,
+            .send 3 (communityPrefixHead ++ List.replicate 20 0xAA ++ [1]), .addHop 0 { addr := 7, flags := [4] }],
+   by decide⟩
+
+/-- **A failing `send_data` never falls back to the raw socket.**  Whatever the fault injection (`setFail`), an
+    anonymized `send` emits no raw event; the packet whose `send_data` raised is lost, the rest stays queued. -/
+theorem anonymized_send_never_raw (s : State) (a : Addr) (p : Bytes) (h : s.anonymized p = true) :
+    ∀ a' p', Event.raw a' p' ∉ (send s a p).2 := by
+  intro a' p' hmem
+  rcases send_cases s a p with ⟨h', _⟩ | ⟨_, _, e⟩ | ⟨_, _, c, _, e⟩ | ⟨_, _, _, _, e⟩ | ⟨_, _, _, _, e⟩
+  · rw [h] at h'; cases h'
+  · rw [e] at hmem; simp at hmem
+  · rw [e] at hmem; exact sendOver_noraw s c a p a' p' hmem
+  · rw [e] at hmem; simp at hmem
+  · rw [e] at hmem; simp at hmem
+
+/-- **Attaching the tunnel community leaves every other overlay's opt-in alone.**  `TunnelCommunity.__init__` on this
+    endpoint sets the community, the default hop count and `set_anonymity(own prefix, False)`; the anonymity of every
+    packet whose 22-byte prefix is not the tunnel community's own is unchanged. -/
+theorem attach_keeps_other_overlays_anonymized (s : State) (pfx p : Bytes) (h : p.take prefixLen ≠ pfx) :
+    (step s (.attachCommunity pfx)).1.anonymized p = s.anonymized p ∧
+    (step s (.attachCommunity pfx)).1.attached = true ∧ (step s (.attachCommunity pfx)).2 = [] := by
+  refine ⟨?_, rfl, rfl⟩
+  simp only [step, State.anonymized, dictGet_dictSet]
+  rw [if_neg (fun hh => h hh.symm)]
 
 /-- **The queue is bounded.**  From any state whose queue respects its bound, after any history the queue still
     respects the same bound. -/
@@ -157,10 +215,10 @@ theorem queue_bounded (ops : List Op) (s : State) (h : s.queue.length ≤ s.cap)
       cases o with
       | send a p =>
         simp only [step]
-        rcases send_cases s a p with ⟨_, e⟩ | ⟨_, _, e⟩ | ⟨_, _, c, _, _, e⟩ | ⟨_, _, c, _, _, e⟩ | ⟨_, _, _, e⟩
+        rcases send_cases s a p with ⟨_, e⟩ | ⟨_, _, e⟩ | ⟨_, _, c, _, e⟩ | ⟨_, _, _, _, e⟩ | ⟨_, _, _, _, e⟩
         · rw [e]; exact h
         · rw [e]; exact h
-        · rw [e]; simp
+        · rw [e]; exact Nat.le_trans (sendOver_queue_len s c a p) h
         · rw [e]; exact dequeAppend_length _ _ _
         · rw [e]; exact dequeAppend_length _ _ _
       | _ => rw [(step_queue_nonsend s _ (by intro a p; simp)).1]; exact h
@@ -185,10 +243,10 @@ theorem queue_holds_only_anonymized_sends (ops : List Op) (s : State) (x : Addr 
       cases o with
       | send a p =>
         simp only [step] at h
-        rcases send_cases s a p with ⟨_, e⟩ | ⟨_, _, e⟩ | ⟨_, _, c, _, _, e⟩ | ⟨han, _, c, _, _, e⟩ | ⟨han, _, _, e⟩
+        rcases send_cases s a p with ⟨_, e⟩ | ⟨_, _, e⟩ | ⟨_, _, c, _, e⟩ | ⟨han, _, _, _, e⟩ | ⟨han, _, _, _, e⟩
         · rw [e] at h; exact Or.inl h
         · rw [e] at h; exact Or.inl h
-        · rw [e] at h; simp at h
+        · rw [e] at h; exact Or.inl (sendOver_queue_mem s c a p x h)
         · rw [e] at h
           rcases dequeAppend_mem _ _ _ _ h with h | rfl
           · exact Or.inl h
@@ -218,35 +276,26 @@ theorem tunnelled_packets_were_anonymized_sends (cap : Nat) (ops : List Op) :
     · exact ⟨pre', post' ++ x.2.1 :: post, by rw [hops, h1]; simp, h2⟩
 
 /-- **Nothing is duplicated or invented.**  For an anonymized `send`, the packets that were waiting plus the new
-    one are exactly (as a multiset) what is tunnelled now, what is dropped now and what waits afterwards. -/
+    one are exactly (as a multiset) what is tunnelled now, what is dropped or lost to a raising `send_data` now
+    (`goneOf`) and what waits afterwards. -/
 theorem send_conserves_packets (s : State) (a : Addr) (p : Bytes) (h : s.anonymized p = true) :
-    List.Perm ((a, p) :: s.queue)
-      ((send s a p).2.filterMap (fun e => match e with
-          | .data _ _ d q => some (d, q) | .drop _ d q => some (d, q) | _ => none)
-        ++ (send s a p).1.queue) := by
-  have hmapdrop : ∀ l : List (Addr × Bytes),
-      (l.map (fun x => Event.drop true x.1 x.2)).filterMap (fun e => match e with
-          | .data _ _ d q => some (d, q) | .drop _ d q => some (d, q) | _ => none) = l := by
-    intro l; induction l with
-    | nil => rfl
-    | cons y ys ih => simp [ih]
-  rcases send_cases s a p with ⟨h', _⟩ | ⟨_, _, e⟩ | ⟨_, _, c, _, _, e⟩ | ⟨_, _, c, _, _, e⟩ | ⟨_, _, _, e⟩
+    List.Perm ((a, p) :: s.queue) (goneOf (send s a p).2 ++ (send s a p).1.queue) := by
+  rcases send_cases s a p with ⟨h', _⟩ | ⟨_, _, e⟩ | ⟨_, _, c, _, e⟩ | ⟨_, _, _, _, e⟩ | ⟨_, _, _, _, e⟩
   · rw [h] at h'; cases h'
-  · rw [e]; simp
-  · rw [e]
-    have hmapdata : ∀ l : List (Addr × Bytes),
-        (l.map (dataEv c)).filterMap (fun e => match e with
-            | .data _ _ d q => some (d, q) | .drop _ d q => some (d, q) | _ => none) = l := by
-      intro l; induction l with
-      | nil => rfl
-      | cons y ys ih => simp [dataEv, ih]
-    simp only [List.filterMap_cons, hmapdata, dataEv, List.append_nil]
-    exact List.Perm.refl _
-  · rw [e]; simp only [hmapdrop]
+  · rw [e]; simp [goneOf]
+  · rw [e, sendOver_conserve]
+  · rw [e]; simp only [goneOf_drops]
     rw [dequeAppend_parts]
     exact (List.perm_append_singleton _ _).symm
-  · rw [e]; simp only [List.filterMap_cons, hmapdrop]
-    rw [dequeAppend_parts]
+  · rw [e]
+    have : goneOf (Event.create (sendCreateHops s.hops) sendCreateFlags
+        (s.comm.create (sendCreateHops s.hops) sendCreateCtype).2 ::
+        (dequeAppend s.cap s.queue (a, p)).2.map (fun x => Event.drop true x.1 x.2))
+        = (dequeAppend s.cap s.queue (a, p)).2 := by
+      have := goneOf_drops (dequeAppend s.cap s.queue (a, p)).2 true
+      simp only [goneOf, List.filterMap_cons] at this ⊢
+      exact this
+    rw [this, dequeAppend_parts]
     exact (List.perm_append_singleton _ _).symm
 
 /-- **Plain overlays are unaffected (one call).**  A `send` whose prefix is not anonymized hands exactly that packet
@@ -290,7 +339,7 @@ theorem overlay_opts_in (s : State) (cid body : Bytes) (hlen : cid.length = 20) 
     history in which nobody switches its prefix off again, no packet starting with that overlay's prefix is ever
     handed to the wrapped endpoint's `send` — with or without tunnel community, circuits, queue space. -/
 theorem anonymized_overlay_never_raw (s : State) (cid : Bytes) (hlen : cid.length = 20) (ops : List Op)
-    (hno : ∀ o ∈ ops, o ≠ .setAnonymity (overlayPrefix cid) false) :
+    (hno : ∀ o ∈ ops, o ≠ .setAnonymity (overlayPrefix cid) false ∧ o ≠ .attachCommunity (overlayPrefix cid)) :
     ∀ x ∈ trace (step s (.overlay cid true)).1 ops, ∀ a body, Event.raw a (overlayPrefix cid ++ body) ∉ x.2.2 := by
   intro x hx a body hmem
   obtain ⟨_, hplain⟩ := no_raw_leak _ ops x hx a _ hmem
@@ -319,8 +368,8 @@ theorem plain_overlay_load_changes_nothing (s : State) (cid : Bytes) :
     `anonymized_overlay_never_raw` with the later loads spelled out as part of the history.) -/
 theorem shared_prefix_stays_anonymized (s : State) (cid : Bytes) (hlen : cid.length = 20) (pre post : List Op)
     (others : List (Bytes × Bool))
-    (hpre : ∀ o ∈ pre, o ≠ .setAnonymity (overlayPrefix cid) false)
-    (hpost : ∀ o ∈ post, o ≠ .setAnonymity (overlayPrefix cid) false) :
+    (hpre : ∀ o ∈ pre, o ≠ .setAnonymity (overlayPrefix cid) false ∧ o ≠ .attachCommunity (overlayPrefix cid))
+    (hpost : ∀ o ∈ post, o ≠ .setAnonymity (overlayPrefix cid) false ∧ o ≠ .attachCommunity (overlayPrefix cid)) :
     ∀ x ∈ trace (step s (.overlay cid true)).1 (pre ++ others.map (fun cb => Op.overlay cb.1 cb.2) ++ post),
       ∀ a body, Event.raw a (overlayPrefix cid ++ body) ∉ x.2.2 := by
   apply anonymized_overlay_never_raw s cid hlen
@@ -331,9 +380,11 @@ theorem shared_prefix_stays_anonymized (s : State) (cid : Bytes) (hlen : cid.len
   · simp
   · exact hpost o ho
 
-/-- **Delivery filter by origin.**  `notify_listeners(packet, from_tunnel)` reaches exactly the registered listeners
-    whose `anonymize` attribute (absent = False) equals `from_tunnel`, and changes nothing: an anonymized listener is
-    never given socket traffic, a plain listener never tunnel traffic. -/
+/-- **Delivery filter by origin** (of `TunnelEndpoint.notify_listeners` only).  `notify_listeners(packet, from_tunnel)`
+    offers the packet to exactly those entries of the wrapped endpoint's `_listeners` whose `anonymize` attribute
+    (absent = False) equals `from_tunnel`, and changes nothing.  This says nothing about the wrapped endpoint's own
+    `notify_listeners` (socket traffic is delivered by prefix, without this filter) nor about listeners registered by
+    prefix only, which `Community` objects are: see design.d/C07.md, "receive path". -/
 theorem delivery_filter (s : State) (ft : Bool) (lid : Nat) :
     (Event.deliver lid ∈ (step s (.notify ft)).2 ↔ ∃ l ∈ s.listeners, l.lid = lid ∧ l.anonymize.getD false = ft)
     ∧ (step s (.notify ft)).1 = s := by
@@ -353,7 +404,7 @@ private def pktA (n : UInt8) : Bytes := pfxA ++ [n]
 private def stReady : State :=
   { cap := 2, settings := [(pfxA, true)], queue := [(5, pktA 1)], hops := 1, attached := true,
     comm := { circuits := [{ cid := 9, goalHops := 1, ctype := .data, closing := false,
-                              hops := [{ addr := 7, flags := [1, 4] }] }], nextId := 10, canCreate := true },
+                              hops := [{ addr := 7, flags := [1, 4] }] }], nextId := 10, canCreate := true, failAfter := none },
     listeners := [{ lid := 1, anonymize := some true }, { lid := 2, anonymize := none }] }
 
 /-- tunnelled: new packet first, then the backlog, over circuit 9 via first hop 7; queue emptied -/
@@ -364,12 +415,22 @@ example : (runState stReady [.close 0, .send 3 (pktA 2), .send 3 (pktA 3)]).queu
     ∧ (trace stReady [.close 0, .send 3 (pktA 2), .send 3 (pktA 3)]).map (·.2.2)
         = [[], [], [.drop true 5 (pktA 1)]] := by decide
 /-- removal requested for the READY circuit 9 (`remove_circuit` before its delay has elapsed): the very next send is
-    queued although the entry is still registered (and, a quirk of `circuits[0]`, it keeps later READY circuits from
-    being used until it is popped); after the pop the backlog goes over the new READY circuit -/
+    queued although the entry is still registered; after the pop the backlog goes over the new READY circuit -/
 example : (trace stReady [.removeRequest 9, .send 3 (pktA 2), .newCircuit 1 .data,
       .addHop 1 { addr := 8, flags := [4] }, .removeDone 9, .send 3 (pktA 3)]).map (·.2.2)
     = [[], [], [], [], [], [.data 10 (some 8) 3 (pktA 3), .data 10 (some 8) 5 (pktA 1), .data 10 (some 8) 3 (pktA 2)]]
     ∧ (runState stReady [.removeRequest 9, .send 3 (pktA 2)]).comm.circuits.length = 1 := by decide
+/-- a READY circuit behind a CLOSING one is used at once (since the repair of `send`; before it the packet was queued) -/
+example : (trace stReady [.removeRequest 9, .newCircuit 1 .data, .addHop 1 { addr := 8, flags := [4] },
+      .send 3 (pktA 3)]).map (·.2.2)
+    = [[], [], [], [.data 10 (some 8) 3 (pktA 3), .data 10 (some 8) 5 (pktA 1)]] := by decide
+/-- the second `send_data` raises: the first packet went out, the one popped for the failing call is lost, nothing raw -/
+example : step { stReady with queue := [(5, pktA 1), (6, pktA 4)], comm := { stReady.comm with failAfter := some 1 } }
+      (.send 3 (pktA 2))
+    = ({ stReady with queue := [(6, pktA 4)] }, [.data 9 (some 7) 3 (pktA 2), .fail 5 (pktA 1)]) := by decide
+/-- `TunnelCommunity.__init__` on the endpoint: attached with the default hop count, own prefix plain, others untouched -/
+example : (step { stReady with attached := false, hops := 0 } (.attachCommunity (0 :: pfxA))).1
+    = { stReady with settings := [(pfxA, true), (0 :: pfxA, false)] } := by decide
 /-- detached: dropped, never raw -/
 example : step { stReady with attached := false } (.send 3 (pktA 2)) =
     ({ stReady with attached := false }, [.drop false 3 (pktA 2)]) := by decide
